@@ -17,7 +17,7 @@ EXACT_RATIOS = ["2", "4", "5", "10", "2.5", "0.5", "1.25", "20", "8", "0.2"]   #
 
 
 def plan(tier, seed):
-    k = 30 if tier == "quick" else 600
+    k = 64 if tier == "quick" else 600
     shards = [{"kind": "twin", "cls": c, "seed": seed, "shard": i, "n": 150} for c in ("exact", "rounded") for i in range(k)]
     shards += [{"kind": "twin", "cls": "split_on_trade_date", "seed": seed, "shard": i, "n": 150} for i in range(k // 2)]
     shards += [{"kind": "pair", "seed": seed, "shard": i, "n": 150} for i in range(k)]
